@@ -605,7 +605,7 @@ Definition exec (m : module) (i : instr) : M unit :=
   | IRead local_ ty i => read_generic local_ ty i i
   | IReadidx local_ ty v i =>
     if ty =? 7 then crashM CrAssert     (* readidx?@ has no _exec_ function *)
-    else read_generic local_ ty (v + i) i
+    else read_generic local_ ty (v + i) (v + i)
   | IRefidx =>
     do idx <- pop;
     do (g, i) <- pop_ref;
